@@ -57,6 +57,7 @@ func vLive(b []byte) bool                { return true }
 func vDeadlocked() bool                  { return false }
 func vNondetErr(name string) error       { return nil }
 func vHavocBytes(b []byte, name string)  {}
+func vBencode(v interface{}) []byte      { return nil }
 `
 
 var primNames = map[string]bool{}
